@@ -428,4 +428,37 @@ theorem findContainerSize_restyle (st : Nat) (c : Ctx) (lines : List (List Cell)
     | cons l r ih => intro w h; simp only [List.map_cons, sizeLoop, hl, ih]
   exact this lines 0 0
 
+/-! ### Fill, HasUnboundedWidth / HasUnboundedHeight -/
+
+/-- **Fill**: `for i := range s.Buffer { s.Buffer[i].Style = style }` (each store a CHECKED index expression) is the model's
+`fillStyle`: every cell keeps its grapheme and width and gets the style; never a panic. -/
+theorem fill_body_eq_model (R : Ro) (s : Surface) (st : Nat) (scr : Screen) :
+    (run R SurfaceBodies.fill SurfaceBodies.fillParams [.surf s, .sty st] scr).map (·.2.1)
+      = .ok (some (.surf (fillStyle s st))) := by
+  cases s with
+  | mk w h buf kids =>
+  simp [SurfaceBodies.fill, SurfaceBodies.fillParams, Surface.buf]
+  rw [loopS_foldSI R _ 2 (.range "v1" "_")
+    (fun (b : List Cell) => { ρ := [("r", .surf (.mk w h b kids)), ("v0", .sty st)], scr := scr })
+    Val.cell (fillStep st) ?_ buf 0 buf]
+  · have := foldSI_fill st buf [] buf rfl
+    simp only [List.length_nil, List.nil_append] at this
+    rw [this]; simp [Step.toRes, fillStyle, Surface.setBuf, Surface.buf]
+  · intro b c i
+    simp [fillStep, Surface.buf, Surface.setBuf, Step.toRes]
+    cases hb : b[i]? with
+    | none => simp [Step.toRes]
+    | some c' => simp [Step.toRes]
+
+/-- `Size.HasUnboundedWidth` / `HasUnboundedHeight`: the dimension equals `math.MaxUint16` = 65535 (`Layout.unbounded`). -/
+theorem hasUnbounded_body_eq_model (R : Ro) (w h : UInt16) (scr : Screen) :
+    (run R SurfaceBodies.hasUnboundedWidth SurfaceBodies.hasUnboundedWidthParams [.size w h] scr).map (·.1)
+        = .ok (.bool (decide (w = unbounded))) ∧
+    (run R SurfaceBodies.hasUnboundedHeight SurfaceBodies.hasUnboundedHeightParams [.size w h] scr).map (·.1)
+        = .ok (.bool (decide (h = unbounded))) := by
+  have h65 : UInt16.ofInt 65535 = unbounded := by decide
+  constructor <;>
+    simp [SurfaceBodies.hasUnboundedWidth, SurfaceBodies.hasUnboundedWidthParams, SurfaceBodies.hasUnboundedHeight,
+      SurfaceBodies.hasUnboundedHeightParams, h65]
+
 end VaxisModel.Props.C14Body
